@@ -56,10 +56,14 @@ def main():
     ap.add_argument("--tier", default="quick")
     ap.add_argument("--only", default="")
     ap.add_argument("--all-checks", action="store_true")
+    ap.add_argument("--names", default="", help="comma-separated seed directory names (exact)")
     a = ap.parse_args()
+    names = set(x for x in a.names.split(",") if x)
     jobs = []
     for seed in sorted(os.listdir(os.path.join(VERIF, "seeded"))):
         if a.only and a.only not in seed:
+            continue
+        if names and seed not in names:
             continue
         m = json.load(open(os.path.join(VERIF, "seeded", seed, "meta.json")))
         checks = [m["breaks_property"]]
